@@ -170,6 +170,17 @@ def make_check(prop, plans_of, rule, nontrivial, level="model_checking", assumpt
                     if len(st_) >= 2:
                         pos = rng.randrange(1, len(st_))
                         mig.append({"id": r_["id"] + "-mig", "steps": st_[:pos] + [{"op": "migrate"}] + st_[pos:]})
+                if prop == "C01":
+                    # the log's KEY IS REPLACED in the configuration (same origin) and the witness restarted on the same database: what it holds was signed
+                    # with the old key. Requests signed with the new key follow (first use, every size, the other branch): no second history may begin.
+                    for r_ in rng.sample(runs, min(len(runs), nmig // 2)):
+                        st_ = r_.get("steps") or []
+                        named = sorted({x["log"] for x in st_ if x.get("op") == "update" and x.get("log") in c["Logs"]})
+                        if named:
+                            L = rng.choice(named)
+                            newkey = [{"op": "update", "log": L, "req": {"auth": "unknownkey", "old": o_, "b": b_, "n": n_, "extra": 0, "stale": 0, "ext": 0, "pf": {"k": "empty"}}}
+                                      for n_ in range(1, c["MaxSize"] + 1) for b_ in (1, 0) for o_ in (0, n_)] * 2
+                            mig.append({"id": r_["id"] + "-rekey", "steps": st_ + [{"op": "migrate", "cls": "rekey", "log": L}] + newkey + [{"op": "get", "log": L}]})
                 if prop == "C16":
                     # a log is RETIRED: the operator drops it from the configuration and restarts on the same database. The witness takes no more
                     # updates for it, but what it holds is still what it holds: listed, and served byte for byte (only reads follow the restart)
